@@ -14,7 +14,7 @@
 (*         {"t":"str","v":[chars]} | {"t":"bool","v":B} | {"t":"err"} |     *)
 (*         {"t":"panic"} | {"t":"nil"}                                      *)
 (***************************************************************************)
-EXTENDS XPath, Json, IOUtils, TLC
+EXTENDS Unmarshal, Json, IOUtils, TLC
 
 CONSTANT OpenFx   \* the open known-finding switches
 Trace == ndJsonDeserialize(IOEnv.TRACE)
@@ -106,6 +106,34 @@ ExecRet ==
         /\ snap' = SnapAfter(ev)
   /\ UNCHANGED docs
 
+\* xsel.Unmarshal(result of e from node ctx, target of type T passed as form): the filled target must be
+\* what Unmarshal.tla defines, and - like every call - it must leave the document and held node-sets alone
+\* {"ev":"unmarshal","h","ctx","env","e","type","form","out": filled value | {"t":"err"} | {"t":"panic"},"held","dochash"}
+RECURSIVE SameGV(_, _)
+SameGV(w, g) ==   \* type-safe structural equality of filled values (g is what the trace logged)
+  /\ "k" \in DOMAIN g /\ g.k = w.k
+  /\ CASE w.k \in {"str", "bool", "num"} -> g.v = w.v
+       [] w.k = "list" -> Len(g.v) = Len(w.v) /\ \A i \in 1..Len(w.v) : SameGV(w.v[i], g.v[i])
+       [] w.k = "rec" -> Len(g.f) = Len(w.f) /\ \A i \in 1..Len(w.f) : SameGV(w.f[i], g.f[i])
+       [] OTHER -> TRUE
+UnmarshalEv ==
+  /\ IsEvent("unmarshal")
+  /\ LET ev == Trace[l]
+         d == docs[ev.h]
+         env == NormEnv(ev.env)
+         r == Eval(d, env, ev.e, Ctx(ev.ctx))
+         want == IF IsErr(r) THEN UErr(IF r.why \in SkipWhys THEN "unk" ELSE "result") ELSE UnmarshalCall(d, env, ev.form, ev.type, r)
+         undetermined == IsUErr(want) /\ want.why = "unk"
+         ok == IF undetermined THEN TRUE
+               ELSE IF IsUErr(want) THEN ("t" \in DOMAIN ev.out /\ ev.out.t = "err")
+               ELSE SameGV(want, ev.out)
+         bad == ~ok \/ ~FrameOK(ev)
+     IN /\ (bad => PrintT(ToJson([verdict |-> [val |-> IF ok THEN "ok" ELSE "bad", ord |-> "na", frame |-> IF FrameOK(ev) THEN "ok" ELSE "bad"], l |-> l, want |-> want])))
+        /\ (undetermined => PrintT(ToJson([verdict |-> "skip", l |-> l])))
+        /\ nbad' = nbad + (IF bad THEN 1 ELSE 0)
+        /\ snap' = SnapAfter(ev)
+  /\ UNCHANGED docs
+
 \* the client takes a sub-slice of a node-set it holds (no library call): the new node-set is
 \* that sub-sequence and nothing else changes
 ResliceEv ==
@@ -125,6 +153,6 @@ Done ==
   /\ l' = l + 1
   /\ UNCHANGED <<docs, nbad, snap>>
 
-Next == LoadDoc \/ BadDoc \/ ExecRet \/ ResliceEv \/ Done
+Next == LoadDoc \/ BadDoc \/ ExecRet \/ UnmarshalEv \/ ResliceEv \/ Done
 TraceSpec == Init /\ [][Next]_vars
 =============================================================================
